@@ -24,6 +24,41 @@
 #include "indent.h"
 #include "cppParser.h"
 
+#include <set>
+
+
+/**
+ * Several predicates below ask the same question of every base class and of
+ * the type of every data member.  In ill-formed input a class can contain or
+ * derive from itself ("struct S { S s; };", "struct A : A {};"), which would
+ * make them recurse without end.  Each predicate keeps the classes it is
+ * currently judging in a set and registers itself with this helper; meeting a
+ * class that is already being judged ends the recursion.
+ */
+class ClassInProgress {
+public:
+  typedef std::set<const CPPStructType *> Set;
+
+  ClassInProgress(Set &in_progress, const CPPStructType *type) :
+    _in_progress(in_progress),
+    _type(type),
+    _is_first(in_progress.insert(type).second) {
+  }
+  ~ClassInProgress() {
+    if (_is_first) {
+      _in_progress.erase(_type);
+    }
+  }
+  bool is_recursive() const {
+    return !_is_first;
+  }
+
+private:
+  Set &_in_progress;
+  const CPPStructType *_type;
+  bool _is_first;
+};
+
 /**
  *
  */
@@ -207,6 +242,13 @@ is_polymorphic() const {
  */
 bool CPPStructType::
 is_standard_layout() const {
+  static ClassInProgress::Set in_progress;
+  ClassInProgress guard(in_progress, this);
+  if (guard.is_recursive()) {
+    // This class contains or derives from itself; that is ill-formed.
+    return false;
+  }
+
   assert(_scope != nullptr);
 
   CPPVisibility member_vis = V_unknown;
@@ -271,6 +313,13 @@ is_standard_layout() const {
  */
 bool CPPStructType::
 is_trivial() const {
+  static ClassInProgress::Set in_progress;
+  ClassInProgress guard(in_progress, this);
+  if (guard.is_recursive()) {
+    // This class contains or derives from itself; that is ill-formed.
+    return false;
+  }
+
   // Make sure all base classes are trivial and non-virtual.
   Derivation::const_iterator di;
   for (di = _derivation.begin(); di != _derivation.end(); ++di) {
@@ -361,6 +410,13 @@ is_trivial() const {
  */
 bool CPPStructType::
 is_trivially_copyable() const {
+  static ClassInProgress::Set in_progress;
+  ClassInProgress guard(in_progress, this);
+  if (guard.is_recursive()) {
+    // This class contains or derives from itself; that is ill-formed.
+    return false;
+  }
+
   // Make sure all base classes are trivially copyable and non-virtual.
   Derivation::const_iterator di;
   for (di = _derivation.begin(); di != _derivation.end(); ++di) {
@@ -538,6 +594,13 @@ is_destructible() const {
  */
 bool CPPStructType::
 is_default_constructible(CPPVisibility min_vis) const {
+  static ClassInProgress::Set in_progress;
+  ClassInProgress guard(in_progress, this);
+  if (guard.is_recursive()) {
+    // This class contains or derives from itself; that is ill-formed.
+    return false;
+  }
+
   CPPInstance *constructor = get_default_constructor();
   if (constructor != nullptr) {
     // It has a default constructor.
@@ -620,6 +683,13 @@ is_default_constructible(CPPVisibility min_vis) const {
  */
 bool CPPStructType::
 is_copy_constructible(CPPVisibility min_vis) const {
+  static ClassInProgress::Set in_progress;
+  ClassInProgress guard(in_progress, this);
+  if (guard.is_recursive()) {
+    // This class contains or derives from itself; that is ill-formed.
+    return false;
+  }
+
   CPPInstance *constructor = get_copy_constructor();
   if (constructor != nullptr) {
     // It has a copy constructor.
@@ -717,6 +787,13 @@ is_move_constructible(CPPVisibility min_vis) const {
  */
 bool CPPStructType::
 is_copy_assignable(CPPVisibility min_vis) const {
+  static ClassInProgress::Set in_progress;
+  ClassInProgress guard(in_progress, this);
+  if (guard.is_recursive()) {
+    // This class contains or derives from itself; that is ill-formed.
+    return false;
+  }
+
   CPPInstance *assignment_operator = get_copy_assignment_operator();
   if (assignment_operator != nullptr) {
     // It has a copy assignment operator.
@@ -807,6 +884,13 @@ is_move_assignable(CPPVisibility min_vis) const {
  */
 bool CPPStructType::
 is_destructible(CPPVisibility min_vis) const {
+  static ClassInProgress::Set in_progress;
+  ClassInProgress guard(in_progress, this);
+  if (guard.is_recursive()) {
+    // This class contains or derives from itself; that is ill-formed.
+    return false;
+  }
+
   // Do we have an explicit destructor?
   CPPInstance *destructor = get_destructor();
   if (destructor != nullptr) {
